@@ -12,8 +12,8 @@
                                                 small-step model, one shared handle, any number of threads, every
                                                 interleaving in which no read overlaps a write
      refuted  C19_offset_refuted (pre-F16 key; fixed), C19_truncated_cached_refuted (pre-F22 store rule; fixed),
-              C19_second_handle_refuted, C19_stale_after_write_refuted, C19_late_store_refuted,
-              C19_cancelled_miss_leaks_refuted
+              C19_cancelled_miss_leaks_refuted (pre-F23 step; fixed),
+              C19_second_handle_refuted, C19_stale_after_write_refuted, C19_late_store_refuted
               (witnesses replayed on the real code) *)
 From Coq Require Import List NArith ZArith Bool Arith.
 From Coq.Strings Require Import Byte.
@@ -101,8 +101,8 @@ Proof. vm_compute. repeat split. Qed.
 (* ------------------------------------------------------------------------------------------------ lookups cancelled by the caller *)
 (* Memo.handle_step_c: the caller takes k elements, cancels its context and stops receiving.  One handle, all histories
    mixing ordinary requests and cancelled lookups: a cancelled lookup hands over exactly the first k elements of the wrapped
-   store's answer of that moment (all of it when it has no more than k), every other request gets the wrapped store's
-   answer - a cancelled miss stores nothing - and unless a forwarded lookup was left blocked (flag lk) the whole history ran. *)
+   store's answer of that moment (all of it when it has no more than k), and every other request gets the wrapped store's
+   answer - a cancelled miss stores nothing.  (`delivered` relates the answers position by position; lists of equal length.) *)
 Theorem C19_cancelled_lookups :
   forall (istate gid wreq query elem err K : Type)
          (is_exist : query -> bool) (key : query -> K) (K_eqb : K -> K -> bool)
@@ -114,11 +114,10 @@ Theorem C19_cancelled_lookups :
                        snd (inner_step s g (Read q1)) = snd (inner_step s g (Read q2))) ->
     forall (s : istate) (g : gid) (rs : list (@creq wreq query)),
       Forall (fun r => match r with CPlain (Read q) => D q = true | CCancel q _ => D q = true | _ => True end) rs ->
-      let '(m, out, lk) := memo_run_c istate gid wreq query elem err K is_exist key K_eqb inner_step cancelled
-                                      (mkM s [fresh g]) (map (CDo 0) rs) in
-      delivered wreq query elem err is_exist rs out
-                (ref_answers istate gid wreq query elem err inner_step s g rs)
-      /\ (lk = false -> length out = length rs).
+      delivered wreq query elem err is_exist rs
+                (snd (memo_run_c istate gid wreq query elem err K is_exist key K_eqb inner_step cancelled
+                                 (mkM s [fresh g]) (map (CDo 0) rs)))
+                (ref_answers istate gid wreq query elem err inner_step s g rs).
 Proof.
   intros istate gid wreq query elem err K is_exist key K_eqb inner_step D cancelled HK Hp Hk s g rs HD.
   exact (cancelled_single_handle istate gid wreq query elem err K is_exist key K_eqb HK inner_step D Hp Hk cancelled
@@ -126,12 +125,13 @@ Proof.
 Qed.
 Print Assumptions C19_cancelled_lookups.
 
-(* ... but a cancelled MISS is not drained: with four triples and a caller that stops after one, the forwarded lookup
-   is left blocked for ever (flag true) - with storage/memory it keeps the graph's read lock and later writes block *)
+(* BEFORE fix F23 (repo 6374439) a cancelled MISS was not drained: with four triples and a caller that stops after one,
+   the forwarded lookup was left blocked for ever (flag of the pre-fix step function) - with storage/memory it kept the
+   graph's read lock and later writes blocked *)
 Theorem C19_cancelled_miss_leaks_refuted :
   exists (init : list N) (k : nat),
-    snd (memo_run_c (list N) N twreq tquery N N (ckey N) cq_is_exist key_v1 (ckey_eqb N.eqb) tiny_step 7%N
-                    (mkM init [fresh 0%N]) [CDo 0 (CCancel (t_list 0 0) k)]) = true.
+    snd (handle_step_c_f23 (list N) N twreq tquery N N (ckey N) cq_is_exist key_v1 (ckey_eqb N.eqb) tiny_step 7%N
+                           init (fresh 0%N) (CCancel (t_list 0 0) k)) = true.
 Proof. exists [1;2;3;4]%N, 1. vm_compute. reflexivity. Qed.
 Print Assumptions C19_cancelled_miss_leaks_refuted.
 
@@ -141,7 +141,7 @@ Example C19_cancelled_then_again_example :
              (mkM [1;2]%N [fresh 0%N])
              [CDo 0 (CCancel (t_list 0 0) 1); CDo 0 (CPlain (rd_list 0 0)); CDo 0 (CCancel (t_list 0 0) 1)]
   = (mkM [1;2]%N [store_list N N (ckey N) (fresh 0%N) (key_v1 (t_list 0 0)) [1;2]%N],
-     [AList [1%N] (Some 7%N); AList [1;2]%N None; AList [1%N] None], false).
+     [AList [1%N] (Some 7%N); AList [1;2]%N None; AList [1%N] None]).
 Proof. vm_compute. reflexivity. Qed.
 
 (* ------------------------------------------------------------------------------------------------ several handles, reads only *)
